@@ -21,7 +21,7 @@ from sim.ref import chp, sv
 from sim.seam import OutcomeScript, OwnedRNG
 
 ID = "C07"
-RUNS = {"quick": 1600, "thorough": 40000}
+RUNS = {"quick": 4000, "thorough": 60000}
 BUDGET = {"quick": 75, "thorough": 1200}
 CHUNK = {"quick": 25, "thorough": 100}
 RUN_TIMEOUT_S = 600
